@@ -189,6 +189,7 @@ func compileRegexp(patternStr, flags string) (p *regexpPattern, err error) {
 	var global, ignoreCase, multiline, dotAll, sticky, unicode bool
 	var wrapper *regexpWrapper
 	var wrapper2 *regexp2Wrapper
+	var mayMatchEmpty bool
 
 	if flags != "" {
 		invalidFlags := func() {
@@ -270,6 +271,9 @@ func compileRegexp(patternStr, flags string) (p *regexpPattern, err error) {
 			}
 		} else {
 			wrapper = (*regexpWrapper)(pattern)
+			if parsed, err2 := syntax.Parse(re2Str, syntax.Perl); err2 != nil || re2MayMatchEmpty(parsed) {
+				mayMatchEmpty = true
+			}
 		}
 	} else {
 		var incompat parser.RegexpErrorIncompatible
@@ -296,8 +300,40 @@ func compileRegexp(patternStr, flags string) (p *regexpPattern, err error) {
 		dotAll:         dotAll,
 		sticky:         sticky,
 		unicode:        unicode,
+		mayMatchEmpty:  mayMatchEmpty,
 	}
 	return
+}
+
+// re2MayMatchEmpty reports whether the (already validated) RE2 expression can match the empty string.
+// It errs on the side of true.
+func re2MayMatchEmpty(re *syntax.Regexp) bool {
+	switch re.Op {
+	case syntax.OpNoMatch, syntax.OpCharClass, syntax.OpAnyChar, syntax.OpAnyCharNotNL:
+		return false
+	case syntax.OpLiteral:
+		return len(re.Rune) == 0
+	case syntax.OpCapture, syntax.OpPlus:
+		return re2MayMatchEmpty(re.Sub[0])
+	case syntax.OpRepeat:
+		return re.Min == 0 || re2MayMatchEmpty(re.Sub[0])
+	case syntax.OpConcat:
+		for _, sub := range re.Sub {
+			if !re2MayMatchEmpty(sub) {
+				return false
+			}
+		}
+		return true
+	case syntax.OpAlternate:
+		for _, sub := range re.Sub {
+			if re2MayMatchEmpty(sub) {
+				return true
+			}
+		}
+		return false
+	}
+	// OpEmptyMatch, assertions, OpStar, OpQuest
+	return true
 }
 
 func (r *Runtime) _newRegExp(patternStr String, flags string, proto *Object) *regexpObject {
